@@ -111,6 +111,10 @@ impl Fetcher {
 
     /// Mark a fetch as failed for the [`NodeId`], using the provided `reason`.
     pub fn fetch_failed(&mut self, node: NodeId, reason: impl ToString) {
+        // N.b. the local node is never fetched from, and must not count towards the target.
+        if node == self.local_node {
+            return;
+        }
         let reason = reason.to_string();
         self.results.push(node, FetchResult::Failed { reason })
     }
@@ -128,7 +132,10 @@ impl Fetcher {
         node: NodeId,
         result: FetchResult,
     ) -> ControlFlow<Success, Progress> {
-        self.results.push(node, result);
+        // N.b. the local node is never fetched from, and must not count towards the target.
+        if node != self.local_node {
+            self.results.push(node, result);
+        }
         self.finished()
     }
 
